@@ -137,6 +137,22 @@ def holdable_flags(index: RepoIndex, rep, rule: str) -> None:
               'Key.holdable', 'keys are not holdable', 'Key holdable')
 
 
+def deep_copy_rule(index: RepoIndex, rep, rule: str) -> None:
+    """the per-step copy is a plain deep copy: every object of the next state is its own
+    instance (shared by C09.R5 and C10.R8)"""
+    from .c03 import copy_protocol
+    copy_protocol(index, rep, rule)
+    fc = index.func('gym_gridverse/utils/fast_copy.py', 'fast_copy')
+    b = fc.body()
+    xp = fc.node.args.args[0].arg
+    good = {f'pickle.loads(pickle.dumps({xp}))', f'copy.deepcopy({xp})', f'deepcopy({xp})'}
+    rep.check(len(b) == 1 and isinstance(b[0], ast.Return) and src(b[0].value) in good,
+              rule, 'gym_gridverse/utils/fast_copy.py', 'fast_copy', fc.node.lineno,
+              src(b[-1]), 'fast_copy is not a plain deep copy of its argument (a cached or '
+              'partial copy can hand back the objects of another state, or one object for two '
+              'cells)', 'fast_copy deep')
+
+
 def run(index: RepoIndex, rep) -> None:
     rep.rule('C09.R1', 'effect table: cells stored only by pickndrop / actuate_box / '
              'move_obstacles (swap), held item only by pickndrop; box replaced by content',
@@ -148,16 +164,7 @@ def run(index: RepoIndex, rep) -> None:
     rep.rule('C09.R5', 'the per-step copy preserves every object: deep copy by pickle / '
              'deepcopy, default copy protocol (or a __reduce__ that rebuilds every constructor '
              'argument)', floor=15)
-    from .c03 import copy_protocol
-    copy_protocol(index, rep, 'C09.R5')
-    fc = index.func('gym_gridverse/utils/fast_copy.py', 'fast_copy')
-    b = fc.body()
-    xp = fc.node.args.args[0].arg
-    good = {f'pickle.loads(pickle.dumps({xp}))', f'copy.deepcopy({xp})', f'deepcopy({xp})'}
-    rep.check(len(b) == 1 and isinstance(b[0], ast.Return) and src(b[0].value) in good,
-              'C09.R5', 'gym_gridverse/utils/fast_copy.py', 'fast_copy', fc.node.lineno,
-              src(b[-1]), 'fast_copy is not a plain deep copy of its argument (a cached or '
-              'partial copy can hand back the objects of another state)', 'fast_copy deep')
+    deep_copy_rule(index, rep, 'C09.R5')
     effect_table(index, rep, 'C09.R1', {'cell', 'held', 'swap'})
     c10.box_rule(index, rep, 'C09.R1')
     exchange(index, rep, 'C09.R2')
